@@ -8,7 +8,7 @@
      unb s                     = s with batch 1
      esample b e               = the program e with every leaf replaced by its sample b (or itself
                                  when it is shared) *)
-From Coq Require Import List Arith Lia Permutation Bool.
+From Coq Require Import List Arith Lia Permutation Bool Sorted ZArith.
 From PV Require Import Tensor.Kernels Tensor.Index Tensor.KernelProofs Tensor.ProofsBilinear.
 Import ListNotations.
 
@@ -233,6 +233,19 @@ Theorem C03_inplace_add_sample :
     add (nth (b * V + i) y zero) (nth (bsel sx b * V + i) x zero).
 Proof. exact inplace_add_sample. Qed.
 Print Assumptions C03_inplace_add_sample.
+
+(* ... its program restricted to sample b is the batch-1 program shifted *)
+Theorem C03_inplace_add_block :
+  forall (sx sy : tshape) (V B : nat),
+    tvolume sy = V ->
+    Nat.max (tbatch sx) (tbatch sy) = B ->
+    forall b : nat,
+    1 < tbatch sy ->
+    b < B ->
+    block b V (inplace_add sx sy) =
+    map (fun e : nat * nat => (b * V + fst e, bsel sx b * V + snd e)) (inplace_add (unb sx) (unb sy)).
+Proof. exact inplace_add_block. Qed.
+Print Assumptions C03_inplace_add_block.
 
 (* matmul: sample bn of the result is the matrix product of the bn-th samples, a batch-1 operand being shared (bsel) *)
 Theorem C03_matmul_value :
